@@ -11,4 +11,5 @@ import SpecKitV.Props.AttrsA
 #print axioms Miso.siso_case
 #print axioms model_misoResidual_toC
 #print axioms residual_identity
+#print axioms residual_identity'
 #print axioms residual_eq_GyyRx
